@@ -148,7 +148,22 @@ def run_shard(ctx):
         for _ in range(150):
             r = rng.random()
             lang = rng.choice(['en', 'en', 'tr'])
-            if r < 0.002:
+            if r < 0.004:
+                # more than 127 highlight tokens on a line that also uses a name (the second line of the text is judged)
+                n = rng.choice([70, 130, 200, 300])
+                terms = [str(rng.randint(0, 999)) for _ in range(n)]
+                terms.insert(rng.randrange(n + 1), 'zq')
+                line, spans = '', []
+                for k_, t_ in enumerate(terms):
+                    if k_:
+                        line += ' '
+                        spans.append((len(line), len(line) + 1, 'Operator'))
+                        line += rng.choice('+*') + ' '
+                    if t_ != 'zq':
+                        spans.append((len(line), len(line) + len(t_), 'Number'))
+                    line += t_
+                meta.append((lang, 'zq = 5\n' + line, 'structured-many-tokens', spans))
+            elif r < 0.006:
                 # a line longer than 65 536 characters (positions that do not fit 16 bits): a long comment behind, or a long word in front of,
                 # a structured line
                 line, spans = structured(rng)
@@ -180,6 +195,9 @@ def run_shard(ctx):
         for (lang, line, cls, spans), r in zip(meta, rs):
             res.cases += 1
             res.count('class:' + cls)
+            if cls == 'structured-many-tokens' and 'lines' in r and len(r['lines']) == 2:
+                r = {'lines': r['lines'][1:]}
+                line = line.split('\n', 1)[1]
             if 'lines' not in r or len(r['lines']) != 1:
                 res.count('abnormal_results_skipped')     # belongs to C01
                 continue
@@ -214,5 +232,5 @@ def run_shard(ctx):
                 if res.cases % 499 == 0:
                     res.sample({'lang': lang, 'line': line, 'tokens': ui})
                 continue
-            res.violation(sig + (':very-long' if len(line) > 65000 else ''), '%r (%s): %s' % (line if len(line) < 400 else line[:150] + ' ... ' + line[-150:], lang, why[:600]),
+            res.violation(sig + (':very-long' if len(line) > 65000 else '') + (':many-tokens' if cls == 'structured-many-tokens' else ''), '%r (%s): %s' % (line if len(line) < 400 else line[:150] + ' ... ' + line[-150:], lang, why[:600]),
                           {'config': cfg, 'lang': lang, 'text': line, 'tokens': ui, 'ops': [{'op': 'opts', 'ui': True}] + gh.config_ops(cfg) + [{'op': 'execute', 'lang': lang, 'text': line}]})
